@@ -34,6 +34,9 @@ def load_constants(path):
 ENC = {"ENC_LITTLE_ENDIAN": "le", "ENC_BIG_ENDIAN": "be", "ENC_NA": "na"}
 
 
+NAME_IDS = False      # number the C variables by their names (crc32), as corpus.Resolver(name_ids=True) numbers the fields
+
+
 class Parser:
     def __init__(self, lines, consts):
         self.l, self.i, self.consts = lines, 0, consts
@@ -42,6 +45,10 @@ class Parser:
         self.used_consts = set()
 
     def var(self, name):
+        if NAME_IDS:
+            import zlib
+            self.vars.setdefault(name, len(self.vars))
+            return str(zlib.crc32(name.encode()) & 0x3FFFFFFF)
         return str(self.vars.setdefault(name, len(self.vars)))
 
     def peek(self):
